@@ -114,83 +114,127 @@ class Kernel:
 
     # ---------------------------------------------------------- pairing
     def _pairing(self) -> None:
+        """Which names denote row i-1 (`last`) and row i (`next`) of the
+        simulation in round i = 1 .. len(ode)-1:  either the rolling pair
+        `last = ode[0]; for i / for next in ode[1:]: ...; last = next`, or
+        the index form `last = ode[i - 1]; next = ode[i]`."""
         comp, outer, body, ode_n = self.comp, self.outer, self.body, \
             self.ode_n
-        iv = outer.target.id if isinstance(outer.target, ast.Name) else "i"
-        it_src = ast.unparse(inline_locals(comp.node, outer.iter)).replace(
-            " ", "")
-        form_a = it_src in (f"range(1,len({ode_n}))",
-                            f"range(1,{ode_n}.shape[0])")
-        form_b = it_src == f"{ode_n}[1:]" and isinstance(
-            outer.target, ast.Name)
+        ev = self.ev
+        self.pre = body[:body.index(outer)]
+        self.rows: dict[str, str] = {}       # alias -> "last" | "next"
+        self.skip: list[ast.stmt] = []       # the statements that bind them
+        self.carry = None
+        iv = outer.target.id if isinstance(outer.target, ast.Name) else None
+        # the values of the locals before the loop
+        env = Env()
+        env.vars[ode_n] = ("array", ode_n)
+        env.vars.update({self.sdim_n: S, self.udim_n: U, self.gam_n: GAMMA})
+        for s in self.pre:
+            t = _tgt(s)
+            if isinstance(s, (ast.Assign, ast.AnnAssign)) and \
+                    s.value is not None and isinstance(t, ast.Name):
+                try:
+                    env = ev.stmt(env, s)
+                except Unsupported:
+                    pass
+        self.env0 = env
+        it = outer.iter
+        form_a = form_b = False
+        if isinstance(it, ast.Call) and isinstance(
+                it.func, ast.Name) and it.func.id == "range" and len(
+                it.args) == 2 and not it.keywords and iv is not None:
+            try:
+                lo = _shape_subst(ev.num(env, it.args[0]), ode_n)
+                hi = _shape_subst(ev.num(env, it.args[1]), ode_n)
+                form_a = lo == ONE and hi == R
+            except Unsupported:
+                form_a = False
+        it_src = ast.unparse(inline_locals(comp.node, it)).replace(" ", "")
+        if not form_a and it_src == f"{ode_n}[1:]" and iv is not None:
+            form_b = True
         self.it_src = it_src
         self.trips_outer = R - ONE if (form_a or form_b) else None
         if not (form_a or form_b):
             self.pairing.append("rows are not scanned as i = 1 .. "
                                 "len(ode)-1")
             return
-        nxt = [s for s in outer.body if isinstance(
-            s, (ast.Assign, ast.AnnAssign)) and s.value is not None
-            and ast.unparse(s.value).replace(" ", "") == f"{ode_n}[{iv}]"] \
-            if form_a else []
+        isym = Poly.var("i")
         if form_b:
-            next_n = outer.target.id
-            iv = "i$"
+            self.rows[iv] = "next"
+            self.iv = "i$"
         else:
-            next_n = _tgt(nxt[0]).id if len(nxt) == 1 and \
-                outer.body[0] is nxt[0] and isinstance(
-                _tgt(nxt[0]), ast.Name) else None
-        last_n = carry = None
-        if next_n is not None:
+            self.iv = iv
+            # aliases of ode[i] / ode[i - 1] bound in the body
+            for st_ in outer.body:
+                t = _tgt(st_)
+                if isinstance(st_, (ast.Assign, ast.AnnAssign)) and \
+                        isinstance(t, ast.Name) and isinstance(
+                        getattr(st_, "value", None), ast.Subscript) and \
+                        isinstance(st_.value.value, ast.Name) and \
+                        st_.value.value.id == ode_n and not isinstance(
+                        st_.value.slice, (ast.Slice, ast.Tuple)):
+                    e2 = env.copy()
+                    e2.vars[iv] = isym
+                    try:
+                        k = ev.num(e2, st_.value.slice) - isym
+                    except Unsupported:
+                        continue
+                    if k == Poly():
+                        self.rows[t.id] = "next"
+                        self.skip.append(st_)
+                    elif k == -ONE:
+                        self.rows[t.id] = "last"
+                        self.skip.append(st_)
+        # the rolling pair: last = ode[0] before the loop, last = next as
+        # the last thing that touches either of them in a round
+        nexts = [k for k, v in self.rows.items() if v == "next"]
+        if "last" not in self.rows.values() and nexts:
             for k_, st_ in enumerate(outer.body):
                 if isinstance(st_, ast.Assign) and isinstance(
-                        st_.value, ast.Name) and st_.value.id == next_n and \
+                        st_.value, ast.Name) and st_.value.id in nexts and \
                         len(st_.targets) == 1 and isinstance(
                         st_.targets[0], ast.Name):
                     cand_ = st_.targets[0].id
                     later = {n.id for x in outer.body[k_ + 1:]
                              for n in ast.walk(x) if isinstance(n, ast.Name)}
-                    if cand_ not in later and next_n not in later:
-                        last_n, carry = cand_, st_
-        self.nxt_stmt = nxt[0] if nxt else None
-        self.carry = carry
-        self.pre = body[:body.index(outer)]
-        init_ok = last_n is not None and any(
-            ast.unparse(s.value).replace(" ", "") == f"{ode_n}[0]"
-            for s in _asg(self.pre, last_n)) and len(
-            _asg(outer.body, last_n)) == 1 and len(
-            _asg(outer.body, next_n)) == (0 if form_b else 1)
-        if not init_ok:
+                    init0 = [s for s in _asg(self.pre, cand_)
+                             if ast.unparse(s.value).replace(" ", "")
+                             == f"{ode_n}[0]"]
+                    if cand_ not in later and st_.value.id not in later \
+                            and len(init0) == 1 and len(
+                            _asg(outer.body, cand_)) == 1:
+                        self.rows[cand_] = "last"
+                        self.carry = st_
+                        self.skip.append(st_)
+        rebound = [n.id for st_ in outer.body if st_ not in self.skip
+                   for n in ast.walk(st_) if isinstance(n, ast.Name)
+                   and isinstance(n.ctx, ast.Store) and n.id in self.rows]
+        if "last" not in self.rows.values() or "next" not in \
+                self.rows.values() or rebound:
             self.pairing.append(
                 "the previous row is not carried as `last = ode[0]; for i: "
-                "next = ode[i]; ...; last = next`")
-        self.iv, self.next_n, self.last_n = iv, next_n, last_n
+                "next = ode[i]; ...; last = next` nor read as `ode[i - 1]`")
+        self.last_n = next((k for k, v in self.rows.items()
+                            if v == "last"), None)
+        self.next_n = next((k for k, v in self.rows.items()
+                            if v == "next"), None)
 
     # ------------------------------------------------------------- scan
     def _scan(self) -> None:
         ev = self.ev
-        env = Env()
-        env.vars[self.ode_n] = ("array", self.ode_n)
-        env.vars[self.last_n] = ("array", "last")
-        env.vars[self.next_n] = ("array", "next")
-        env.vars.update({self.sdim_n: S, self.udim_n: U, self.gam_n: GAMMA,
-                         self.iv: Poly.var("i")})
-        for s in self.pre:
-            t = _tgt(s)
-            if isinstance(s, (ast.Assign, ast.AnnAssign)) and \
-                    s.value is not None and isinstance(t, ast.Name) and \
-                    t.id != self.last_n:
-                try:
-                    env = ev.stmt(env, s)
-                except Unsupported:
-                    pass
-        self.env0 = env
+        env = self.env0.copy()
+        for nm, role in self.rows.items():
+            env.vars[nm] = ("array", role)
+        env.vars[self.iv] = Poly.var("i")
+        self.first_round_cond: Any = None
+        self.guard_node: ast.AST | None = None
 
-        def scan(stmts: list[ast.stmt], guarded: str | None, e: Env) -> Env:
+        def scan(stmts: list[ast.stmt], guarded: Any, e: Env) -> Env:
             for s in stmts:
-                if s is self.nxt_stmt or s is self.carry:
+                if s in self.skip:
                     continue
-                if isinstance(s, ast.While):
+                if isinstance(s, (ast.While, ast.For)):
                     self.loops.append(self._while(e, s, guarded))
                     # the loop's own variables are unknown afterwards
                     for n in ast.walk(s):
@@ -198,10 +242,20 @@ class Kernel:
                                 n.ctx, ast.Store):
                             e.vars.pop(n.id, None)
                     continue
-                if isinstance(s, ast.If) and isinstance(s.test, ast.Name) \
-                        and not s.orelse:
-                    self.flag_n = s.test.id
-                    scan(s.body, s.test.id, e.copy())
+                if isinstance(s, ast.If) and not s.orelse and any(
+                        isinstance(x, (ast.While, ast.For))
+                        for x in ast.walk(s)):
+                    # the optional block: behind a flag or a test of the
+                    # round number
+                    if isinstance(s.test, ast.Name):
+                        self.flag_n = s.test.id
+                    else:
+                        try:
+                            self.first_round_cond = ev.cond(e, s.test)
+                        except Unsupported:
+                            self.first_round_cond = ("unknown",)
+                    self.guard_node = s
+                    scan(s.body, s, e.copy())
                     continue
                 if isinstance(s, (ast.Assign, ast.AnnAssign, ast.AugAssign)):
                     try:
@@ -211,58 +265,97 @@ class Kernel:
             return e
         scan(self.outer.body, None, env.copy())
 
-    def _while(self, e: Env, w: ast.While, guard: str | None
-               ) -> dict[str, Any]:
+    def _while(self, e: Env, w: Any, guard: Any) -> dict[str, Any]:
+        """One term loop (a counting `while` or a `for` over a range with
+        step +-1): the counter's range, one symbolic round of its body."""
         ev = self.ev
         stored = {n.id for s in w.body for n in ast.walk(s)
                   if isinstance(n, ast.Name) and isinstance(n.ctx, ast.Store)}
-        cs = [n for n in sorted({x.id for x in ast.walk(w.test)
-                                 if isinstance(x, ast.Name)}) if n in stored]
-        leaves = any(isinstance(x, (ast.Break, ast.Return, ast.Raise))
-                     for s in w.body for x in ast.walk(s))
-        if not cs and not leaves:
-            return {"error": f"nothing in `while {ast.unparse(w.test)}` "
-                    "changes during a round: the loop cannot terminate",
-                    "line": w.lineno, "definite": True}
-        if len(cs) != 1:
-            return {"error": f"loop test `{ast.unparse(w.test)}` not "
-                    "recognised (no single counter)", "line": w.lineno}
-        c = cs[0]
-        init = e.vars.get(c)
-        if not isinstance(init, Poly):
-            return {"error": f"start value of `{c}` not known",
-                    "line": w.lineno}
         csym = Poly.var("c$")
         psym = Poly.var("pos$")
-        e1 = e.copy()
-        e1.vars[c] = csym
-        try:
-            cond = ev.cond(e1, w.test)
-        except Unsupported:
-            return {"error": "loop test not normalised", "line": w.lineno}
-        low = _lower_bound(cond, csym)
-        try:
-            ps = paths(list(w.body))
-        except ValueError:
-            return {"error": "loop body not understood (too many paths)",
-                    "line": w.lineno}
-        if low is None:
-            # a test that bounds the counter from ABOVE while every round
-            # lowers it: the loop runs forever or not at all
-            up = _lower_bound(c_not(cond), csym)
+        is_for = isinstance(w, ast.For)
+        leaves = any(isinstance(x, (ast.Break, ast.Return, ast.Raise))
+                     for s in w.body for x in ast.walk(s))
+        if is_for:
+            it = w.iter
+            if not (isinstance(w.target, ast.Name) and isinstance(
+                    it, ast.Call) and isinstance(it.func, ast.Name)
+                    and it.func.id == "range" and 1 <= len(it.args) <= 3
+                    and not it.keywords and not w.orelse):
+                return {"error": f"loop `for {ast.unparse(w.target)} in "
+                        f"{ast.unparse(it)[:40]}` not recognised",
+                        "line": w.lineno}
+            c = w.target.id
+            if c in stored:
+                return {"error": f"the loop variable `{c}` is re-assigned",
+                        "line": w.lineno}
             try:
-                falling = all(not p.ended and c in p.env and ev.num(
-                    e1, p.env[c]) - csym == -ONE for p in ps)
+                vals = [ev.num(e, a_) for a_ in it.args]
             except Unsupported:
-                falling = False
-            if up is not None and falling and not leaves:
-                return {"error": f"`while {ast.unparse(w.test)}` bounds the "
-                        f"falling counter `{c}` from above: the loop runs "
-                        "forever or never", "line": w.lineno,
-                        "definite": True}
-            return {"error": f"loop test `{ast.unparse(w.test)}` not "
-                    "recognised as a lower bound of the counter",
-                    "line": w.lineno}
+                return {"error": "range bounds not normalised",
+                        "line": w.lineno}
+            step = vals[2] if len(vals) == 3 else ONE
+            start = vals[0] if len(vals) >= 2 else Poly()
+            stop = vals[1] if len(vals) >= 2 else vals[0]
+            if step == -ONE:
+                init, low = start, stop + ONE
+            elif step == ONE:
+                init, low = stop - ONE, start
+            else:
+                return {"error": "range step is not +-1", "line": w.lineno}
+            e1 = e.copy()
+            e1.vars[c] = csym
+            try:
+                ps = paths(list(w.body))
+            except ValueError:
+                return {"error": "loop body not understood (too many "
+                        "paths)", "line": w.lineno}
+        else:
+            cs = [n for n in sorted({x.id for x in ast.walk(w.test)
+                                     if isinstance(x, ast.Name)})
+                  if n in stored]
+            if not cs and not leaves:
+                return {"error": f"nothing in `while {ast.unparse(w.test)}` "
+                        "changes during a round: the loop cannot terminate",
+                        "line": w.lineno, "definite": True}
+            if len(cs) != 1:
+                return {"error": f"loop test `{ast.unparse(w.test)}` not "
+                        "recognised (no single counter)", "line": w.lineno}
+            c = cs[0]
+            init = e.vars.get(c)
+            if not isinstance(init, Poly):
+                return {"error": f"start value of `{c}` not known",
+                        "line": w.lineno}
+            e1 = e.copy()
+            e1.vars[c] = csym
+            try:
+                cond = ev.cond(e1, w.test)
+            except Unsupported:
+                return {"error": "loop test not normalised",
+                        "line": w.lineno}
+            low = _lower_bound(cond, csym)
+            try:
+                ps = paths(list(w.body))
+            except ValueError:
+                return {"error": "loop body not understood (too many "
+                        "paths)", "line": w.lineno}
+            if low is None:
+                # a test that bounds the counter from ABOVE while every
+                # round lowers it: the loop runs forever or not at all
+                up = _lower_bound(c_not(cond), csym)
+                try:
+                    falling = all(not p.ended and c in p.env and ev.num(
+                        e1, p.env[c]) - csym == -ONE for p in ps)
+                except Unsupported:
+                    falling = False
+                if up is not None and falling and not leaves:
+                    return {"error": f"`while {ast.unparse(w.test)}` bounds "
+                            f"the falling counter `{c}` from above: the "
+                            "loop runs forever or never", "line": w.lineno,
+                            "definite": True}
+                return {"error": f"loop test `{ast.unparse(w.test)}` not "
+                        "recognised as a lower bound of the counter",
+                        "line": w.lineno}
         items: list[tuple[tuple, Any]] = []
         index_ok = True
         cellidx: set = set()
@@ -285,8 +378,8 @@ class Kernel:
             for nm in pos:
                 e2.vars[nm] = psym
             try:
-                if c not in p.env or ev.num(
-                        e2, p.env[c]) - csym != -ONE:
+                if not is_for and (c not in p.env or ev.num(
+                        e2, p.env[c]) - csym != -ONE):
                     return {"error": f"`{c}` is not decremented by one per "
                             "round", "line": w.lineno}
                 if len(set(pos)) != 1 or ev.num(e2, sl) != psym or \
@@ -466,7 +559,10 @@ def dest(ctx: Ctx) -> None:
         s, ast.Assign) and isinstance(s.targets[0], ast.Subscript)
         and isinstance(s.targets[0].value, ast.Name)
         and s.targets[0].value.id == km.dest_n)
-    in_loops = sum(1 for w in ast.walk(km.outer) if isinstance(w, ast.While)
+    in_loops = sum(1 for w in ast.walk(km.outer) if isinstance(
+        w, (ast.While, ast.For)) and w is not km.outer and not any(
+        isinstance(x, (ast.While, ast.For)) and x is not w
+        for x in ast.walk(w))
                    for s in ast.walk(w) if isinstance(s, ast.Assign)
                    and isinstance(s.targets[0], ast.Subscript)
                    and isinstance(s.targets[0].value, ast.Name)
@@ -502,9 +598,23 @@ def dest(ctx: Ctx) -> None:
 
 
 def _flag_ok(km: Kernel) -> bool:
+    """The optional (state) block is skipped in the first round and only
+    there: behind a flag that is False before the loop and set True at the
+    end of every round, or behind a test of the round number that is
+    equivalent to i >= 2 (rounds are i = 1 .. len(ode)-1)."""
     repo, comp, outer = km.ctx.repo, km.comp, km.outer
     if km.flag_n is None:
-        return False
+        c = getattr(km, "first_round_cond", None)
+        if c is None or c == ("unknown",):
+            return False
+        i = Poly.var("i")
+        sp = Splitter(integer=True)
+        facts = sp.facts_of(("le", ONE, i), True)[0]
+        same, _ = equivalent(ite(c, ONE, Poly()),
+                             ite(("le", Poly.const(2), i), ONE, Poly()),
+                             facts)
+        # the test must sit directly in the round (not in a term loop)
+        return bool(same) and any(s is km.guard_node for s in outer.body)
     inits = _asg(km.pre, km.flag_n)
     sets = _asg(outer.body, km.flag_n)
     every = [s for s in ast.walk(comp.node) if isinstance(
@@ -596,7 +706,8 @@ def j_terms(ctx: Ctx) -> None:
     if ok_idx:
         ix = next(iter(idx_names))
         defs = _asg(km.pre, ix)
-        loops = [w for w in ast.walk(outer) if isinstance(w, ast.While)]
+        loops = [w for w in ast.walk(outer) if isinstance(
+            w, (ast.While, ast.For)) and w is not outer]
         other = [s for s in ast.walk(outer) if isinstance(
             s, (ast.Assign, ast.AnnAssign, ast.AugAssign)) and isinstance(
             _tgt(s), ast.Name) and _tgt(s).id == ix and not any(
